@@ -10,8 +10,10 @@ fn lib_root(leaves: &[[u8; 32]]) -> [u8; 32] {
 }
 
 fn leaves_of(r: &mut Rg, n: usize, style: u64) -> Vec<[u8; 32]> {
-    match style % 6 {
+    match style % 8 {
         0 => (0..n).map(|_| gen::arr32(r)).collect(),
+        6 => vec![[0u8; 32]; n],
+        7 => vec![[0xffu8; 32]; n],
         1 => {
             let x = gen::arr32(r);
             vec![x; n]
@@ -57,16 +59,16 @@ fn check_eq(ctx: &mut Ctx, leaves: &[[u8; 32]], style: u64) {
         json!({"count": n, "style": style, "expected": hex(&want), "observed": hex(&got),
                "first_leaf": leaves.first().map(|l| hex(l))})
     });
-    ctx.shape((n, style % 6));
+    ctx.shape((n, style % 8));
     ctx.count(&format!("counts/{}", class));
 }
 
 pub fn run(ctx: &mut Ctx) {
     // phase 1: EVERY leaf count 0..=bound, four leaf styles each (exhaustive in the count)
     let bound = ctx.budget(600, 5000);
-    ctx.seen("exhaustive_subspaces", "C18: every leaf count 0..=bound x 6 leaf styles; every single-leaf change and adjacent swap for every count up to the sensitivity bound");
+    ctx.seen("exhaustive_subspaces", "C18: every leaf count 0..=bound x 8 leaf styles (random, one value repeated, counters, sparse zeros, two-letter alphabets, alternating pairs, all-zero, all-ones); every single-leaf change and adjacent swap for every count up to the sensitivity bound");
     ctx.phase("all-counts", bound + 1, |ctx, n| {
-        for style in 0..6u64 {
+        for style in 0..8u64 {
             let leaves = leaves_of(&mut ctx.rng, n as usize, style);
             check_eq(ctx, &leaves, style);
             if n == 0 {
@@ -121,7 +123,7 @@ pub fn run(ctx: &mut Ctx) {
             2 => p + 1,
             _ => p + ctx.rng.gen_range(2..p),
         };
-        let style = ctx.rng.gen_range(0..6);
+        let style = ctx.rng.gen_range(0..8);
         let leaves = leaves_of(&mut ctx.rng, n, style);
         check_eq(ctx, &leaves, style);
         ctx.max("largest_count", n as u64);
